@@ -156,6 +156,21 @@ class Compiler:
             return [("PUSH", 1), "JUMP"]
         if k == "raw":
             return [("RAW", s[1])]
+        if k == "memw":  # write constant bytes to memory
+            data = bytes.fromhex(s[2])
+            out = []
+            for i in range(0, len(data), 32):
+                chunk = data[i : i + 32]
+                if len(chunk) == 32:
+                    out += [("PUSHN", 32, int.from_bytes(chunk, "big")), ("PUSH", s[1] + i), "MSTORE"]
+                else:
+                    for j, b in enumerate(chunk):
+                        out += [("PUSH", b), ("PUSH", s[1] + i + j), "MSTORE8"]
+            return out
+        if k == "xcall":  # CALL addr with memory args, result flag discarded: ["xcall", addr, aoff, asize, roff, rsize]
+            return [("PUSH", s[5]), ("PUSH", s[4]), ("PUSH", s[3]), ("PUSH", s[2]), ("PUSH", 0), ("PUSH", s[1]), "GAS", "CALL", "POP"]
+        if k == "xcallf":  # same, flag stored at s[6]
+            return [("PUSH", s[5]), ("PUSH", s[4]), ("PUSH", s[3]), ("PUSH", s[2]), ("PUSH", 0), ("PUSH", s[1]), "GAS", "CALL", ("PUSH", s[6]), "MSTORE"]
         raise ValueError(s)
 
 
